@@ -610,3 +610,34 @@ Fixpoint run_hops (fuel : nat) (h : heap) (l : list Z) : list Z :=
     end
   end.
 Definition run_heap_hist (inp : list Z) : list Z := run_hops (length inp) [] inp.
+
+(* ---- components of C14: text representations ---- *)
+Require Import Mido.Model.Strings.
+Definition in_tmv (l : list Z) : option (tmv * list Z) :=
+  match l with
+  | 0 :: z :: r => Some (TvInt z, r)
+  | 1 :: r => match in_list r with Some (w, r') => Some (TvFloat w, r') | None => None end
+  | _ => None
+  end.
+Definition out_tmv (t : tmv) : list Z := match t with TvInt z => [0; z] | TvFloat w => 1 :: out_list w end.
+Definition run_msg2str (inp : list Z) : list Z :=
+  match in_msg inp with
+  | Some (m, r) => match in_tmv r with
+                   | Some (t, []) => out_list (msg2str m t) ++ out_list (repr_msg m t)
+                   | _ => bad_input
+                   end
+  | None => bad_input
+  end.
+Definition run_parse_string (inp : list Z) : list Z :=
+  match parse_string inp with Ok (m, t) => 0 :: out_msg m ++ out_tmv t | Raise e => [-1; exn_code e] end.
+Fixpoint in_lines (n : nat) (l : list Z) : list text :=
+  match n with
+  | O => []
+  | S k => match in_list l with Some (w, r) => w :: in_lines k r | None => [] end
+  end.
+Definition run_parse_stream (inp : list Z) : list Z :=
+  match inp with
+  | n :: r => flat_map (fun x => match x with SMsg m t => 0 :: out_msg m ++ out_tmv t ++ [-9] | SErr k => [1; k; -9] end)
+                       (parse_stream 1 (in_lines (Z.to_nat n) r))
+  | [] => bad_input
+  end.
